@@ -340,7 +340,7 @@ impl Property for C12 {
         ]
     }
     fn cases(&self, tier: Tier) -> usize {
-        tier.pick(40000, 120_000)
+        tier.pick(100000, 1_000_000)
     }
     fn strategy(&self, tier: Tier) -> BoxedStrategy<Case> {
         let max = tier.pick(40, 200);
